@@ -214,9 +214,13 @@ def run_server(kconfig, sdkconfig, sdkconfig_rename, default_version=MAX_PROTOCO
                 defaults_diff = diff(before_defaults, after_defaults)
 
             if req["version"] == 1:
-                # V1 response, invisible items have value None
-                for k in (k for (k, v) in visible_diff.items() if not v):
-                    values_diff[k] = None
+                # V1 response, invisible items have value None; an item that became visible (again) gets its value
+                # re-sent, because the client replaced it by None when the item became invisible
+                for k, v in visible_diff.items():
+                    if not v:
+                        values_diff[k] = None
+                    elif k in after:
+                        values_diff[k] = after[k]
                 response = {"version": 1, "values": values_diff, "ranges": ranges_diff}
             else:
                 # V2+ response, separate visibility values
